@@ -9,7 +9,7 @@ C  harness/cmd/peerinput runs every scenario (plus a seeded sample of truncation
    TLC (tla/TrPeerInput.tla) validates them: it decides NoPanic / Terminates per trace.
 The scan of single-value type assertions on xml.Token is an aid to the grammar (evidence only).
 """
-import json, os, re, shutil, subprocess
+import concurrent.futures, json, os, re, shutil, subprocess
 import verif
 
 MC_CFG = '''CONSTANT Tier = "%s"
@@ -17,15 +17,41 @@ SPECIFICATION Spec
 INVARIANT TypeOK
 INVARIANT C09_NoPanic
 PROPERTY C09_NoFeedAfterReturn
+PROPERTY C09_ServeSequential
 PROPERTY C09_Terminates
 CHECK_DEADLOCK FALSE
 '''
 PROPS = ["C09_EveryTableStateReachable", "C09_EveryShapeInEveryState", "C09_EveryTargetCovered", "C09_EveryConfigCrossed", "C09_ClassesDisjoint",
-         "C09_LocalStateCrossed", "C09_ItemsKnown", "C09_LabelsUnique", "TypeOK", "C09_NoFeedAfterReturn", "C09_Terminates"]
+         "C09_LocalStateCrossed", "C09_EverySessionCrossed", "C09_ItemsKnown", "C09_LabelsUnique", "TypeOK", "C09_NoFeedAfterReturn",
+         "C09_ServeSequential", "C09_Terminates"]
+
+
+# code-like deviations of the run protocol in the lives of a session (tla/MCPeerInputDev.tla): TLC must
+# report the violation of C09_Terminates for each, and none without a deviation (same bounds)
+DEV_CFG = 'CONSTANT Tier = "%s"\nSPECIFICATION %s\nINVARIANT TypeOK\nPROPERTY C09_Terminates\nCHECK_DEADLOCK FALSE\n'
+DEVS = ["SecondServeHangs", "ServeAfterCloseHangs", "UnservedCallHangs"]
+
+
+def nonvacuity(ctx):
+    def one(dev):
+        return dev, ctx.tlc("MCPeerInputDev", DEV_CFG % (ctx.tier, "Spec" + dev), workers=1, timeout=300, name="MCPeerInputDev_" + dev)
+    # (one after the other, beside the design check: small state spaces, no ASSUMEs)
+    res = [one(d) for d in ["DevNone"] + DEVS]
+    for dev, r in res:
+        shutil.rmtree(r.dir, ignore_errors=True)
+        if dev == "DevNone":
+            if not r.ok or r.distinct < 2:
+                raise verif.Undecided("non-vacuity: the run protocol without a deviation fails within the bounds of MCPeerInputDev:\n" + r.out[-1500:])
+        elif not re.search(r"Error: Temporal propert(y C09_Terminates was|ies were) violated", r.out):
+            raise verif.Undecided("non-vacuity: deviation %s does not violate C09_Terminates:\n%s" % (dev, r.out[-1500:]))
+    return len(DEVS)
 
 
 def design_check(ctx):
-    r = ctx.model_check("MCPeerInput", MC_CFG % ctx.tier, PROPS, workers=4, timeout=600)
+    with concurrent.futures.ThreadPoolExecutor(max_workers=2) as ex:
+        nv = ex.submit(nonvacuity, ctx)
+        r = ctx.model_check("MCPeerInput", MC_CFG % ctx.tier, PROPS, workers=4, timeout=600)
+        r.nonvacuity = nv.result()
     # the progress lines print "1,895 states generated": take the final summary line
     m = re.findall(r"^(\d+) states generated, (\d+) distinct states found", r.out, re.M)
     if m:
@@ -33,6 +59,10 @@ def design_check(ctx):
     g = r.printed("GRAMMAR")
     nums = [int(x) for x in re.findall(r"\d+", g[-1])] if g else []
     r.grammar = dict(zip(["targets", "stanzas", "sequences", "helpers", "reply_scenarios"], nums))
+    g = r.printed("SESSIONS")
+    nums = [int(x) for x in re.findall(r"\d+", g[-1])] if g else []
+    r.grammar.update(zip(["sessions", "session_x_addressing_singles", "session_life_sequences", "session_x_reply_from_shapes",
+                          "session_life_helper_scenarios"], nums))
     return r
 
 
@@ -94,6 +124,9 @@ def validate(ctx, trace, name="TrPeerInput"):
     return rejected, r
 
 
+# the local address of a session of each address class (LocalOfAddr of tla/PeerInput.tla)
+LOCAL_OF = {"full": "test@example.net/res", "bare": "test@example.net", "domain": "example.net", "empty": ""}
+
 LIBFRAME = re.compile(r"(mellium\.im/xmpp[\w/]*\.[\w\.\(\)\*]+)\(")
 
 
@@ -108,7 +141,11 @@ def signature(meta, ev):
         msg = m.group(1) if m else "crash"
         txt = txt[m.end():] if m else txt
     else:
-        key = "serve" if (ev or {}).get("ev") == "serve_ret" else None
+        key = None
+        if (ev or {}).get("ev") == "serve_ret":
+            key = "serve" if ev.get("k", 1) == 1 else "serve%d" % ev["k"]      # the k-th call of Serve
+        elif (ev or {}).get("ev") == "close":
+            key = "close"
         if key is None:
             ks = [k for k in d if k.startswith("call%d:" % (ev or {}).get("k", 0))]
             key = ks[0] if ks else "serve"
@@ -148,6 +185,11 @@ def report(ctx, trace, rejected, limit=40):
             # (TrApp): the scenario says nothing about the library - undecided, not a violation
             unestablished.append("%s: %s (%s)" % (" | ".join(m["labels"]), ev.get("act"), m["detail"].get("note", "local state %s" % ev.get("loc"))))
             continue
+        if (ev or {}).get("ev") == "reset" and ev.get("oaddr") and (ev["oaddr"], ev.get("olocal")) != (ev.get("addr"), LOCAL_OF.get(ev.get("addr"))):
+            # the construction did not make the session the generator meant (TrReset): no verdict either
+            unestablished.append("session %s/%s: the constructed session has the local address %r (class %s)" % (
+                ev.get("kind"), ev.get("addr"), ev.get("olocal"), ev.get("oaddr")))
+            continue
         groups.setdefault(signature(m, ev), []).append((t, ev, m))
     ctx.unestablished = getattr(ctx, "unestablished", []) + unestablished
     for sig, members in sorted(groups.items(), key=lambda kv: str(kv[0]))[:limit]:
@@ -156,8 +198,12 @@ def report(ctx, trace, rejected, limit=40):
         sc = m["scenario"]
         labs = [" | ".join(x[2]["labels"]) + (" [cut at %d]" % x[2]["scenario"]["cut"]["off"] if x[2]["scenario"].get("cut") else "")
                 for x in members[:6]]
-        what = "%s in %s: %s; %d scenario(s), e.g. %s%s" % (
-            sig[0], sig[1], sig[2], len(members),
+        se, life = sc.get("sess") or {"kind": "c2s", "addr": "full"}, sc.get("life") or "fresh"
+        on = "" if (se["kind"], se["addr"], life) == ("c2s", "full", "fresh") else " [session %s, local address %s, %s]" % (
+            se["kind"], se["addr"], {"fresh": "served once", "closed": "closed by the application before Serve",
+                                     "again": "Serve called again after it returned", "unserved": "never served"}.get(life, life))
+        what = "%s in %s: %s; %d scenario(s), e.g.%s %s%s" % (
+            sig[0], sig[1], sig[2], len(members), on,
             ("helper %s answered with " % sc["helper"]) if sc.get("helper") else "", "; ".join(labs))
         ctx.violation(what, {"family": "peerinput", "scenario": sc, "labels": m["labels"],
                              "trace": [{k: v for k, v in e.items() if k != "_line"} for e in trs[t]],
@@ -256,7 +302,47 @@ def selftest_binding(ctx, trace):
         m = [dict(e) for e in lbase]
         return f(m) or m
     isapp = lambda e: e["ev"] == "app"
-    mutants = [("local state not reached", lmut(setfield(isapp, "loc", "clean"))), ("setup action not established", lmut(setfield(isapp, "est", False))),
+    isev = lambda n: (lambda e: e["ev"] == n)
+    # traces of the other lives of a session: Serve called again after it returned; closed by the
+    # application before Serve; never served; and a session without a local address
+    def oflife(lf, addr=None):
+        c = [t for t, tr in trs.items() if tr[0].get("life") == lf and tr[-1]["ev"] == "end" and (addr is None or tr[0].get("addr") == addr)
+             and all(e.get("out") not in ("PANIC", "STALL") for e in tr)]
+        if not c:
+            raise verif.Undecided("binding self-test: no accepted trace of a session with life %s%s" % (lf, " and address class %s" % addr if addr else ""))
+        return [{k: v for k, v in e.items() if k != "_line"} for e in trs[c[0]]]
+    again, closed, unserved, noaddr = oflife("again"), oflife("closed"), oflife("unserved"), oflife("fresh", "empty")
+    def of(basetr, f):
+        m = [dict(e) for e in basetr]
+        return f(m) or m
+    def setlast(ev, k, v):
+        def f(m):
+            [e for e in m if e["ev"] == ev][-1][k] = v
+        return f
+    def droplast(ev):
+        def f(m):
+            del m[max(k for k, e in enumerate(m) if e["ev"] == ev)]
+        return f
+    sessmutants = [
+        ("second Serve PANIC", of(again, setlast("serve_ret", "out", "PANIC"))),
+        ("second Serve STALL", of(again, setlast("serve_ret", "out", "STALL"))),
+        ("second Serve never returns", of(again, droplast("serve_ret"))),
+        ("second Serve not called", of(again, lambda m: [e for k, e in enumerate(m) if k < max(j for j, x in enumerate(m) if x["ev"] == "serve")] + [m[-1]])),
+        ("Serve of a closed session not called", of(closed, lambda m: [e for e in m if e["ev"] not in ("serve", "serve_ret", "feed", "eof")])),
+        ("third Serve", of(again, lambda m: m[:-1] + [{"ev": "serve"}, {"ev": "serve_ret", "out": "error"}, m[-1]])),
+        ("Close PANIC", of(closed, setfield(isev("close"), "out", "PANIC"))),
+        ("Close STALL", of(closed, setfield(isev("close"), "out", "STALL"))),
+        ("Serve before the Close of a closed session", of(closed, lambda m: [e for e in m if e["ev"] != "close"])),
+        ("Serve on a session meant to stay unserved", of(unserved, lambda m: m[:-1] + [{"ev": "serve"}, {"ev": "serve_ret", "out": "error"}, m[-1]])),
+        ("unserved session never closed", of(unserved, lambda m: [e for e in m if e["ev"] != "close"])),
+        ("Serve PANIC on the session without an address", of(noaddr, setout("serve_ret", "PANIC"))),
+        ("observed local address class differs", of(noaddr, setfield(isev("reset"), "oaddr", "full"))),
+        ("observed local address differs", of(noaddr, setfield(isev("reset"), "olocal", "test@example.net"))),
+        ("unknown life", of(again, setfield(isev("reset"), "life", "bogus"))),
+        ("session kind without that address class", of(noaddr, setfield(isev("reset"), "kind", "bogus"))),
+        ("s2s session with a full address", of(base, lambda m: [dict(m[0], kind="s2s")] + m[1:])),
+    ]
+    mutants = sessmutants + [("local state not reached", lmut(setfield(isapp, "loc", "clean"))), ("setup action not established", lmut(setfield(isapp, "est", False))),
                ("unknown application action", lmut(setfield(isapp, "act", "app:bogus"))),
                ("unknown handler configuration", lmut(setfield(lambda e: e["ev"] == "reset", "cfg", "bogus"))),
                ("serve_ret STALL with local state", lmut(setout("serve_ret", "STALL"))),
@@ -268,14 +354,16 @@ def selftest_binding(ctx, trace):
     p = ctx.path("selftest.ndjson")
     line = 0
     with open(p, "w") as f:
-        for k, (_, m) in enumerate([("unchanged", base)] + mutants + [("unchanged with local state", lbase)]):
+        for k, (_, m) in enumerate([("unchanged", base)] + mutants + [("unchanged with local state", lbase), ("unchanged, served again", again),
+                                                                    ("unchanged, closed before Serve", closed), ("unchanged, never served", unserved),
+                                                                    ("unchanged, no local address", noaddr)]):
             m[0]["t"] = k + 1
             m[0]["end"] = line + len(m) + 1
             for e in m:
                 f.write(json.dumps(e) + "\n")
             line += len(m)
     rej, r = validate(ctx, p, name="TrPeerInput_selftest")
-    if 1 in rej or len(mutants) + 2 in rej:
+    if 1 in rej or any(k in rej for k in range(len(mutants) + 2, len(mutants) + 7)):
         raise verif.Undecided("binding self-test: an unchanged trace was rejected")
     missed = [mutants[k - 2][0] for k in range(2, 2 + len(mutants)) if k not in rej]
     if missed:
